@@ -1699,3 +1699,29 @@ def arming_key_is_cancelling_key(ctx, rule: str) -> None:
         c.ob(rule, ok, sch, f"armed-under-cancelled-key:{x.func.attr}", "tasks are armed under the key the exit routine cancels by (the state id)" if ok else
              f"'{stmt_text(x)}' arms under '{norm(k) if k is not None else '?'}' while _cancel_state_tasks cancels by {sorted(cancel_keys)[:3]}: whenever the two differ "
              f"(an invoke with its own id) the task survives the exit of its state and its late result is delivered to a later activation", x)
+
+
+def stale_source_skip(ctx, rid: str) -> None:
+    """Each selected transition is executed only if its source is still active when its turn comes (or it is the only one selected).
+    A necessary condition of C02 (once per region: a transition invalidated by an earlier winner of the same step does not fire) and of
+    C01 (a transition run from an inactive source exits nothing and enters its target beneath inactive ancestors: seeded change C01-e)."""
+    c, res = ctx.c, ctx.r
+    for v in VIEWS:
+        r = roles(ctx, v)
+        pe = r.process_event
+        calls = [s for s in res.callsites(pe, v) if any(t.qualname == r.dispatch.qualname for t in s.targets)]
+        c.expect(rid, f"dispatch call in {pe.short}", len(calls), 1, pe, f"{pe.short} no longer hands the selected transitions to {r.dispatch.short}: nominated transitions do not fire")
+        for s in calls:
+            ok = False
+            for a, pol in guards_at(pe, s.call):
+                for x in ast.walk(a):
+                    cp = compare_parts(x)
+                    if cp and isinstance(cp[0], ast.Attribute) and cp[0].attr == "source" and \
+                            isinstance(cp[2], ast.Attribute) and cp[2].attr == CONFIG_ATTR:
+                        # whole atom false + 'not in'  ==  executed only when not (… and stale)
+                        if (isinstance(cp[1], ast.NotIn) and not pol) or (isinstance(cp[1], ast.In) and pol):
+                            ok = True
+            c.ob(rid, ok, pe, "stale-source-skip",
+                 "each selected transition is executed only if its source is still active (or it is the only one)" if ok else
+                 "the per-transition executor call is not dominated by the stale-source test: a transition whose source "
+                 "was exited by an earlier winner of the same step still fires", s.call)
